@@ -12,6 +12,7 @@ CfgTree    == {TreeCfg(<<1, 2, 3, 4>>), TreeCfg(<<1, 2, 9, 10>>)}
 CfgTree1   == {TreeCfg(<<1, 2, 3, 4>>)}
 CfgDb      == {DbCfg(ac, lim) : ac \in BOOLEAN, lim \in {0, 1, 2}}
 CfgDbNoLim == {DbCfg(ac, 0) : ac \in BOOLEAN}
+CfgDbConf  == {DbCfg(TRUE, 0)}          \* conflicts allowed: the winner can fall back to an older live branch
 CfgAll     == CfgTree \cup CfgDb
 CfgFeed    == CfgTree1 \cup CfgDbNoLim
 (* Simulation: TLC picks uniformly among SUCCESSOR STATES, so with Next the actions with many argument choices
